@@ -2,3 +2,6 @@ import Nervus.Model.Bytes
 import Nervus.Model.OKey
 import Nervus.Spec.OrderedValue
 import Nervus.Props.C27
+import Nervus.Model.Index
+import Nervus.Spec.IndexFree
+import Nervus.Props.C15
